@@ -577,6 +577,21 @@ func (t *c17) nbnsCase(r *rand.Rand) {
 	raw := refdec.EncodeNBName(refdec.NBName("*", 0))
 	m := refdec.NewDNSMsg(uint16(r.Intn(65536)), 0x8400)
 	m.An = []refdec.DNSRR{{RawName: raw, Type: refdec.TypeNBSTAT, Class: 1, RData: refdec.NBStatRData(names, 46)}}
+	if r.Intn(3) == 0 {
+		// the name array spread over two or three node status records (one of them may hold no name at all, or group names
+		// only): the answer is still the first unique name of the response
+		m.An = nil
+		cut1 := r.Intn(len(names) + 1)
+		cut2 := cut1 + r.Intn(len(names)-cut1+1)
+		for _, part := range [][]refdec.NBNodeName{names[:cut1], names[cut1:cut2], names[cut2:]} {
+			if len(part) > 0 || r.Intn(2) == 0 {
+				m.An = append(m.An, refdec.DNSRR{RawName: raw, Type: refdec.TypeNBSTAT, Class: 1, RData: refdec.NBStatRData(part, 46)})
+			}
+		}
+		if len(m.An) > 1 {
+			c.Obs("nbns_responses_with_several_status_records", 1)
+		}
+	}
 	wire := (&refdec.DNSBuilder{}).Build(m)
 	cs := func() any {
 		var ns []string
